@@ -283,6 +283,29 @@ type c19Sched struct {
 	// ExpireBefore: the cache is configured with a lifetime (cacheTimeoutSeconds) and every entry in it expires just
 	// before this step of the schedule (-1: entries never expire)
 	ExpireBefore int
+	// WeakStrong: successive versions of the answer carry the same opaque tag alternately in weak and in strong
+	// form (W/"r1", "r1", W/"r2", "r2", ...) - two different validators that differ only in the W/ prefix
+	WeakStrong bool
+}
+
+func c19Tag(s c19Sched, version int) string {
+	if !s.WeakStrong {
+		return fmt.Sprintf("E%d", version)
+	}
+	if version%2 == 1 {
+		return fmt.Sprintf(`W/"r%d"`, (version+1)/2)
+	}
+	return fmt.Sprintf(`"r%d"`, (version+1)/2)
+}
+
+// c19VersionOf: the version whose tag this is ("" if none)
+func c19VersionOf(s c19Sched, tag string) string {
+	for v := 1; v < 12; v++ {
+		if c19Tag(s, v) == tag {
+			return fmt.Sprint(v)
+		}
+	}
+	return ""
 }
 
 func c19Interleave(s c19Sched) []mc.Finding {
@@ -297,7 +320,7 @@ func c19Interleave(s c19Sched) []mc.Finding {
 	etagExec := &webhookExecutorEtag{etagCache: cache.New[eTagKey, *eTagEntry](lifetime, 0)}
 	key := etagExec.getKeyFromObject(c19Parent())
 	if s.Primed {
-		etagExec.etagCache.Set(key, &eTagEntry{Etag: "E1", Response: []byte(c19Body("1"))})
+		etagExec.etagCache.Set(key, &eTagEntry{Etag: c19Tag(s, 1), Response: []byte(c19Body("1"))})
 	}
 	version := 1
 	decisions := 0
@@ -317,7 +340,7 @@ func c19Interleave(s c19Sched) []mc.Finding {
 			version++
 		}
 		decisions++
-		etag := fmt.Sprintf("E%d", version)
+		etag := c19Tag(s, version)
 		var resp *http.Response
 		if t.inm == etag {
 			resp = mkResp(304, nil, "")
@@ -375,7 +398,7 @@ func c19Interleave(s c19Sched) []mc.Finding {
 			want = fmt.Sprint(t.servedV)
 			outcome += "2"
 		} else {
-			want = strings.TrimPrefix(t.inm, "E") // the body cached with exactly the ETag that was sent
+			want = c19VersionOf(s, t.inm) // the body cached with exactly the ETag that was sent
 			outcome += "3"
 		}
 		if got != want {
@@ -385,7 +408,7 @@ func c19Interleave(s c19Sched) []mc.Finding {
 	c19Outcome = outcome
 	// the cache entry must pair an ETag with its own body
 	if e, ok := etagExec.etagCache.Get(key); ok {
-		if string(e.Response) != c19Body(strings.TrimPrefix(e.Etag, "E")) {
+		if string(e.Response) != c19Body(c19VersionOf(s, e.Etag)) {
 			bad("cache-pairing", "cache holds (%q, %s)", e.Etag, string(e.Response))
 		}
 	}
@@ -461,6 +484,13 @@ func TestVerifC19(t *testing.T) {
 					r2.Transitions += len(sch)
 					if idx%499 == 0 {
 						r2.Sample(s)
+					}
+					if n == 2 {
+						sw := s
+						sw.WeakStrong = true
+						r2.Case(sw, fmt.Sprintf("%d-weakstrong", idx), func() []mc.Finding { return c19Interleave(sw) })
+						r2.Outcome("weak/strong:" + c19Outcome)
+						r2.Transitions += len(sch)
 					}
 					if n == 2 {
 						// the same schedule with a cache lifetime: the entries expire before each step in turn
